@@ -2372,11 +2372,14 @@ class StridedInterval:
             return self.zero_extend(new_length)
         if msb == [1]:
             # All negative numbers
-            si = self.copy()
-            si._bits = new_length
+            # (a new interval, not a copy: the extended value differs from self's, so it must not carry self's name)
             mask = (2**new_length - 1) - (2**self.bits - 1)
-            si._lower_bound |= mask
-            si._upper_bound |= mask
+            si = StridedInterval(
+                bits=new_length,
+                stride=self.stride,
+                lower_bound=self.lower_bound | mask,
+                upper_bound=self.upper_bound | mask,
+            )
 
         else:
             # Both positive numbers and negative numbers
